@@ -4,5 +4,6 @@
 EXTENDS Lifecycle, Json, IOUtils, SequencesExt
 CONSTANT Mode
 Dump == (Mode = "gen" /\ stage = 1 /\ outcome = "running") =>
-  PrintT(<<"CASE", ToJson([rules |-> SetToSeq(rules), expected_stage |-> ExpectedStage(rules)])>>)
+  PrintT(<<"CASE", ToJson([rules |-> SetToSeq(rules), expected_stage |-> ExpectedStage(rules),
+                           markers |-> [r \in rules \cap DOMAIN RuleMarker |-> RuleMarker[r]]])>>)
 =============================================================================
